@@ -62,7 +62,7 @@ class SymArray(np.ndarray):
         return cast_array(self, dtype)
 
     def copy(self, order="C"):
-        r = np.ndarray.copy(self.view(np.ndarray)).view(SymArray)
+        r = np.ndarray.copy(self.view(np.ndarray)).view(type(self))      # typed stand-ins of a check keep their kind (NumPy keeps the dtype)
         r.tag = self.tag
         return r
 
@@ -1269,7 +1269,10 @@ def _concat_like(func):
 
 def sym_zeros_like(a, dtype=None, order="K", subok=True, shape=None):
     shp = np.shape(a) if shape is None else shape
-    return filled(shp, 0 if dtype is None else _zero_of(dtype), tag=dtype or getattr(a, "tag", None))
+    r = filled(shp, 0 if dtype is None else _zero_of(dtype), tag=dtype or getattr(a, "tag", None))
+    if subok and dtype is None and isinstance(a, SymArray) and type(a) is not SymArray and isinstance(r, np.ndarray):
+        r = r.view(type(a))         # typed stand-ins (integer-valued arrays of a check) keep their kind, as NumPy keeps the dtype
+    return r
 
 
 def _zero_of(dtype):
